@@ -1,4 +1,4 @@
-\* U1b: every content kind, URL shape and upload failure against the worlds reachable with two uploads.
+\* U1b: every content kind, URL shape and upload failure (incl. slow uploads) against the worlds reachable with one upload and GC runs.
 CONSTANTS
   MaxUp = 1
   MaxMsg = 0
